@@ -57,12 +57,12 @@ func (h *harness) want(stage string) bool { return len(h.only) == 0 || h.only[st
 
 func main() {
 	seed := lib.Seed()
-	h := &harness{seed: seed, r: lib.NewRand(seed), rep: lib.NewReport("C20"), sigs: map[string]int{}, scale: 1, only: map[string]bool{}}
+	h := &harness{seed: seed, r: lib.NewRand(seed), rep: lib.NewReport("C20"), sigs: map[string]int{}, scale: 3, only: map[string]bool{}}
 	if lib.Tier() == "thorough" {
-		h.scale = 8
+		h.scale = 20
 	}
 	if os.Getenv("VERIF_MODE") == "search" {
-		h.scale = 12
+		h.scale = 30
 	}
 	if v := lib.EnvInt("VERIF_SCALE", 0); v > 0 {
 		h.scale = int(v)
@@ -77,9 +77,8 @@ func main() {
 	h.reg = h.c.App.InterfaceRegistry()
 	h.p = newPools(seed)
 
-	h.debugBases()
-	if os.Getenv("VERIF_MODE") == "replay" {
-		h.replayKnown()
+	if os.Getenv("VERIF_MODE") == "replay" && os.Getenv("VERIF_REPLAY") != "" {
+		h.replayFile(os.Getenv("VERIF_REPLAY"))
 		h.rep.Write()
 		return
 	}
